@@ -11,6 +11,8 @@ Per-command behaviour can be overridden by `script[name]` = callable(sim, args) 
 (None = no reply) and observed in `log` = [(time, name, args dict)]."""
 from __future__ import annotations
 
+import asyncio
+
 from vlib import refezsp
 
 DELAY = 0.001
@@ -53,6 +55,8 @@ class SimNcp:
         self.closed = False
         self.state = {}
         self.unhandled = []
+        self.negotiated = True   # make_ezsp() starts with the handler of `version` active
+        self.resets = 0
 
     # ---- gateway interface used by EZSP / ProtocolHandler
     async def send_data(self, data: bytes) -> None:
@@ -66,7 +70,17 @@ class SimNcp:
         self.closed = True
 
     async def reset(self):
+        """Gateway.reset(): the NCP restarts; EZSP framing is back to the legacy query only."""
         self.log.append((self.loop.time(), "<reset>", {}))
+        self.resets += 1
+        self.negotiated = False
+        self.on_reset()
+
+    def on_reset(self):
+        pass
+
+    async def wait_for_startup_reset(self):
+        await asyncio.get_running_loop().create_future()
 
     # ---- attach
     def attach(self, ezsp):
@@ -76,6 +90,20 @@ class SimNcp:
 
     # ---- frame handling
     def _handle(self, data):
+        if not self.negotiated:
+            lay = refezsp.layout(self.table_version)
+            if len(data) == 4 and data[2] == 0x00 and data[1] & 0x80 == 0:
+                self.log.append((self.loop.time(), "version", {"legacy": True, "desired": data[3]}))
+                if lay == "legacy":
+                    self.negotiated = True
+                self.loop.call_later(self.delay, self._deliver_response, data[0],
+                                     bytes([data[0], 0x80, 0x00, self.version & 0xFF, 0x02, 0x23, 0x71]))
+                return
+            p = refezsp.parse(self.table_version, data)
+            if not (p is not None and p[2] == 0x0000 and p[3] == bytes([self.version & 0xFF])):
+                self.ignored.append(data)
+                return
+            self.negotiated = True
         p = refezsp.parse(self.table_version, data)
         if p is None:
             self.ignored.append(data)
